@@ -136,4 +136,28 @@ example : (Op.svsplit 7 12 16 17).Ok ∧ (Op.cleave 30 [12, 13]).Ok := by
   · exact ⟨by decide, by decide, by decide⟩
   · simp [Op.Ok]
 
+/-! ### Extents saved with the instance
+
+`Extents.AdjustIndices` widens the stored block-index extents by the span just written and tells the caller
+whether anything moved; only then is the instance saved.  One axis of it, with the shape of the returned flag
+regenerated from the source. -/
+
+def adjustIdx (bothFlags : Bool) (mn mx b e : Int) : Int × Int × Bool :=
+  (min mn b, max mx e, if bothFlags then decide (b < mn) || decide (mx < e) else decide (mx < e))
+
+/-- whenever the flag says "unchanged" (no save), the extents in memory are the extents already saved: a restart
+    brings back the same extents -/
+theorem unsaved_extents_unchanged (mn mx b e : Int)
+    (h : (adjustIdx Gen.extentsIndexChangeKeepsMin mn mx b e).2.2 = false) :
+    (adjustIdx Gen.extentsIndexChangeKeepsMin mn mx b e).1 = mn ∧
+    (adjustIdx Gen.extentsIndexChangeKeepsMin mn mx b e).2.1 = mx := by
+  have hg : Gen.extentsIndexChangeKeepsMin = true := by decide
+  rw [hg] at h ⊢
+  simp only [adjustIdx, if_true, Bool.or_eq_false_iff, decide_eq_false_iff_not] at h ⊢
+  omega
+
+/-- the earlier shape (the flag of the maximum overwrote the flag of the minimum) loses a lowered minimum
+    (the defect fixed in ec65a94) -/
+example : (adjustIdx false 1 1 0 0).2.2 = false ∧ (adjustIdx false 1 1 0 0).1 ≠ 1 := by decide
+
 end Dvid.Props.C03
